@@ -37,6 +37,10 @@ COMMON_ASSUME = [
 
 PROPS = {}
 
+def VALUE_FUZZ(quick=30000, thorough=1500000, workers=8):
+    # libFuzzer over value-level inputs (harness/fuzz/fuzz_values.cpp): comparison operands of the library guide the mutations (value profile)
+    return {'variant': 'fuzz', 'workers': workers, 'fuzz': True, 'runs': {'quick': quick, 'thorough': thorough}, 'corpus': 'fuzz_values', 'fuzz_args': ['-use_value_profile=1', '-max_len=128'], 'timeout': 7200}
+
 def prop(pid, **kw):
     kw.setdefault('level', 'exploration')
     kw.setdefault('engine', 'rapidcheck')
@@ -66,8 +70,8 @@ prop('C02', src='props/c02_checksum.cpp',
      technique='exhaustive enumeration of the GF(2048) doubling rule through the public decoder + property-based metamorphic testing (mutated phrase => CHECKSUM; unique check word)',
      level_text='The algebraic core (every field element at every Horner position) is enumerated completely through the public decoder; substitutions/transpositions/check-word uniqueness are explored on generated phrases (all 2047 substitutes per position for a sample of phrases). Exploration: phrases are sampled, the element x position table is exhaustive.')
 
-prop('C03', src='props/c03_layout.cpp',
-     plan={'quick': [{'variant': 'asan', 'workers': 16}], 'thorough': [{'variant': 'asan', 'workers': 16}, {'variant': 'rel', 'workers': 16}]},
+prop('C03', src='props/c03_layout.cpp', src_by_variant={'fuzz': 'fuzz/fuzz_values.cpp'}, engine='rapidcheck + libFuzzer',
+     plan={'quick': [{'variant': 'asan', 'workers': 16}, VALUE_FUZZ()], 'thorough': [{'variant': 'asan', 'workers': 16}, {'variant': 'rel', 'workers': 16}, VALUE_FUZZ()]},
      rule='(i) exhaustive: all payloads of weight 0, 1 and 2 over the 164 holdable payload bits (150 secret, 4 feature bits, 10 birthday bits; the reserved feature bit cannot be held by any seed) x every registered language x coins {0,1,1024,2047}; '
           '(ii) rapidcheck random (secret, birthday, features, coin, language, enabled mask), one case in six with seeds patterned at the level of the 16 word indices (all data words equal, two values only, one value at several positions, runs, boundary indices 0/1/1023/1024/2047..., adjacent equal words, first = last, sparse bit patterns; coin equal to a shown word or its complement; last data word solved so that the check word is 0, 2047, equal to a data word or to the coin). Oracle: polyseed_encode output is byte-equal to the phrase of the independent reference model '
           '(bit-indexed packing, carry-less GF check value, coin XOR on word 2, golden word list, specification separator, NFC for es/fr/ja/ko), returned length = strlen, store bytes 30-31 = LE16(0x7000|check); '
@@ -84,8 +88,8 @@ prop('C05', src='props/c05_coin.cpp',
      technique='exhaustive enumeration of all 2048x2047 ordered coin pairs per seed + property-based metamorphic testing (other coin => CHECKSUM, word-2-only difference)',
      level_text='All ordered coin pairs are enumerated for a few seeds per run; seeds and languages are sampled. Exploration.')
 
-prop('C06', src='props/c06_storage.cpp',
-     plan={'quick': [{'variant': 'asan', 'workers': 16}], 'thorough': [{'variant': 'asan', 'workers': 16}, {'variant': 'rel', 'workers': 16}]},
+prop('C06', src='props/c06_storage.cpp', src_by_variant={'fuzz': 'fuzz/fuzz_values.cpp'}, engine='rapidcheck + libFuzzer',
+     plan={'quick': [{'variant': 'asan', 'workers': 16}, VALUE_FUZZ()], 'thorough': [{'variant': 'asan', 'workers': 16}, {'variant': 'rel', 'workers': 16}, VALUE_FUZZ()]},
      rule='(1) exhaustive field sweeps around 3 valid images: each header byte x 255 values, bytes 8-9 x 65536 (old and recomputed check value), padding bits x 8 masks, byte 29 x 256, bytes 30-31 x 65536, every secret bit flip (old and recomputed check), and the same bytes in another order (magic / each field / whole image reversed in groups of 2, 4, 8, 16, 32 bytes, magic rotated, every transposition of two magic bytes, lower-case magic); '
           '(2) rapidcheck buffers: 1-6 simultaneous field mutations (with/without recomputed check), valid images under random masks, random buffers with a valid header/frame, uniform random; (3) seed round trips. '
           'Oracle: load status equals the model verdict with precedence FORMAT > CHECKSUM > UNSUPPORTED; OK implies store(load(buf)) == buf and equal getters; store bytes equal the model image; no block left allocated on failure; input unmodified. '
@@ -103,8 +107,8 @@ prop('C07', src='props/c07_wordlists.cpp',
      technique='exhaustive enumeration (all languages x indices x positions) against golden data, through encode and both decoders',
      level_text='The domain is finite (10 x 2048 x 16) and is enumerated completely on every run, in a sanitised build with the library self-test assertions enabled. Exhaustive exploration of the stated domain.')
 
-prop('C04', src='props/c04_keygen.cpp',
-     plan={'quick': [{'variant': 'asan', 'workers': 16}], 'thorough': [{'variant': 'asan', 'workers': 16}, {'variant': 'rel', 'workers': 16}]},
+prop('C04', src='props/c04_keygen.cpp', src_by_variant={'fuzz': 'fuzz/fuzz_values.cpp'}, engine='rapidcheck + libFuzzer',
+     plan={'quick': [{'variant': 'asan', 'workers': 16}, VALUE_FUZZ()], 'thorough': [{'variant': 'asan', 'workers': 16}, {'variant': 'rel', 'workers': 16}, VALUE_FUZZ()]},
      rule='rapidcheck: (secret, birthday, features, coin, key size in {0,1,16,31,32,33,64,65,4096,SIZE_MAX/2}, path in {created, decoded from a random language, loaded, crypt applied twice}, key buffer = PROT_NONE page with a KDF stub that does not touch it | patterned buffer filled by the stub). '
           'Oracle: the KDF log holds exactly one call with pwlen 32, pw = secret||0^13, saltlen 32, salt = "POLYSEED key" 00 FF FF FF || LE32(coin) || LE32(birthday) || LE32(features) || 0^4, 10000 iterations, the caller\'s pointer and length; the buffer afterwards is exactly what the stub wrote; a neighbour seed differing in one ingredient gives different (pw, salt). '
           'Non-trivial = birthday>511 or coin>2 or features!=0 or path!=created or key size!=32.',
@@ -130,8 +134,8 @@ prop('C11', src='props/c11_birthday.cpp',
      technique='property-based testing (rapidcheck) of a validity predicate over injected clock values + exhaustive enumeration of all 1025 month boundaries on both sides',
      level_text='All month boundaries and the special clock values are enumerated; the remaining 2^64 clocks and the transformation chains are sampled. Exploration.')
 
-prop('C12', src='props/c12_crypt.cpp',
-     plan={'quick': [{'variant': 'asan', 'workers': 16}], 'thorough': [{'variant': 'asan', 'workers': 16}, {'variant': 'rel', 'workers': 16}]},
+prop('C12', src='props/c12_crypt.cpp', src_by_variant={'fuzz': 'fuzz/fuzz_values.cpp'}, engine='rapidcheck + libFuzzer',
+     plan={'quick': [{'variant': 'asan', 'workers': 16}, VALUE_FUZZ()], 'thorough': [{'variant': 'asan', 'workers': 16}, {'variant': 'rel', 'workers': 16}, VALUE_FUZZ()]},
      rule='rapidcheck: (seed, password built from ASCII runs, accented Spanish/French/Korean/Japanese words in composed or decomposed form, compatibility characters, random scalar values, or empty; KDF mask fixed by the generator (weights on 00.., FF.., top bits of byte 18 set) or a keyed mix of (pw, salt); chain of 1-4 applications with the same / the other canonical form / a different password). '
           'Oracle per application: one KDF call with pw = NFKD(password) bytes and that length, salt "POLYSEED mask" 00 FF FF (16), 10000 iterations, key length 32; new store bytes = model (secret ^= mask[0..18], byte 18 &= 0x3F, encrypted bit toggled, rest unchanged, check value recomputed); even number of same-password applications restores the seed; the result loads, stores, encodes and decodes unchanged. '
           'Non-trivial = mask with a top bit of byte 18 set, or non-ASCII password, or chain >= 2. Passwords whose NFKD form exceeds the buffer are discarded (C14 covers them).',
@@ -198,8 +202,8 @@ prop('C15', src='props/c15_alloc.cpp', engine='rapidcheck (stateful, fault injec
      technique='fault injection over operation sequences (rapidcheck stateful generation x allocation-failure schedules) with an allocator-ledger invariant; exhaustive over (entry point x outcome x fault) cells',
      level_text='Every (entry point x outcome x fault position) cell is populated on each run and the ledger invariant is checked after every call of every generated sequence under ASan. Fault enumeration: exhaustive over cells, sampled within.')
 
-prop('C18', src='props/c18_deps.cpp', engine='rapidcheck (stateful)',
-     plan={'quick': [{'variant': 'asan-nd', 'workers': 16}, {'variant': 'rel', 'workers': 16}, {'variant': 'asan', 'workers': 16, 'scale': 0.03}], 'thorough': [{'variant': 'asan-nd', 'workers': 16}, {'variant': 'rel', 'workers': 16}, {'variant': 'asan', 'workers': 16, 'scale': 0.03}]},
+prop('C18', src='props/c18_deps.cpp', engine='rapidcheck (stateful)', src_by_variant={'fuzz': 'fuzz/fuzz_values.cpp'},
+     plan={'quick': [{'variant': 'asan-nd', 'workers': 16}, {'variant': 'rel', 'workers': 16}, {'variant': 'asan', 'workers': 16, 'scale': 0.03}, VALUE_FUZZ()], 'thorough': [{'variant': 'asan-nd', 'workers': 16}, {'variant': 'rel', 'workers': 16}, {'variant': 'asan', 'workers': 16, 'scale': 0.03}, VALUE_FUZZ()]},
      variant_flags={'rel': {'cxxflags': '-DVERIF_WRAP', 'ldflags': WRAP_LD}},
      rule='(1) exhaustive: each of the 152 single-bit random-source outputs and their complements: the stored secret equals the delivered 19 bytes with the top two bits of the last dropped, 19 bytes are taken, the birthday is that of the injected clock; '
           '(2) rapidcheck injection histories: sequences in which about one operation in six is polyseed_inject with set A or B and each optional entry (time, alloc, free) present or NULL, the caller\'s struct overwritten with 0x41 right after the call, interleaved with create/load/decode/crypt/keygen/encode/free on 4 slots. '
